@@ -564,9 +564,15 @@ class Project:
 
         """
         try:
-            for d in os.listdir(self.workspace):
-                if JOB_ID_REGEX.fullmatch(d):
-                    yield d
+            # Only directories are jobs: a file or a dangling link that is
+            # named like a job id is not.
+            with os.scandir(self.workspace) as entries:
+                job_ids = [
+                    entry.name
+                    for entry in entries
+                    if JOB_ID_REGEX.fullmatch(entry.name) and entry.is_dir()
+                ]
+            yield from job_ids
         except OSError as error:
             if error.errno == errno.ENOENT:
                 if os.path.islink(self.workspace):
